@@ -44,7 +44,7 @@ class StatisticsEndpoint(EndpointListener, Endpoint):
         self.endpoint.send(socket_address, packet)
 
         prefix = packet[:22]
-        if prefix not in list(self.statistics.keys()) or len(packet) < 22:
+        if prefix not in list(self.statistics.keys()) or len(packet) < 23:
             return
 
         self.add_sent_stat(prefix, packet[22], len(packet))
@@ -66,7 +66,7 @@ class StatisticsEndpoint(EndpointListener, Endpoint):
         _, data = packet
 
         prefix = data[:22]
-        if prefix not in list(self.statistics.keys()) or len(data) < 22:
+        if prefix not in list(self.statistics.keys()) or len(data) < 23:
             return
 
         message_id = data[22]
